@@ -38,6 +38,28 @@ TRUSTED = [
     "avocado: a started task reports under its own (name, uid) or not at all; avocado.core.job maps the suite summary "
     "to the exit code (failure iff INTERRUPTED/FAIL/ERROR in the summary); STATUSES_MAPPING is read from the installed avocado",
     "scope of this check is the rule level (one node class); runs of the whole traversal are covered by the E6 monitors",
+    "harness/pygen.py (Python AST -> Lean `do` block, fails closed) regenerates I2N/Extracted/GenRules.lean on every run "
+    "from the source of TestNode.should_rerun and TestNode.shared_filtered_results; shouldRerun_matches_source / "
+    "filteredResults_matches_source prove the hand written shouldRerun / filteredResults equal to it for all "
+    "configurations, workers and result lists (value and raised error).  Trusted: the translator (loop over a literal "
+    "list unrolled; {*a} - {*b} and {*a} & {*b} as List.filter with only their emptiness observed; accumulation loop as "
+    "List.foldl; raise as throw chosen by exception class and message prefix; calls of logging.* and locals read only by "
+    "log / exception messages dropped); the atom table RERUN_SPEC / FILTERED_SPEC of harness/pygen.py (parameters are "
+    "the fields of Cfg: self.params.get('dry_run', 'no'), self.is_flat(), len(self.cloned_nodes) > 0, "
+    "self.params['name'], truthiness of self.params.get('replay'), the three get_list calls as getListChar / getListWs, "
+    "get_numeric('max_tries', d) = int(params.get(key, d)) with ValueError as Err.badTries, "
+    "len(self.get_stateful_objects()) == 0, self.shared_results, 'swarm' / 'cluster' in self.params['pool_scope'], "
+    "self.params.get('nets_spawner'); a result dictionary is the structure Result: r['status'], r['name'] are total; "
+    "`worker` / `self.started_worker` stand for their truthiness and worker.id / .swarm_id are read only behind it); the "
+    "pinned body of the stateful branch of should_rerun (it sets self.started_worker to `old or worker`, reads "
+    "shared_filtered_results and restores the attribute: its net effect is test_statuses := statuses of "
+    "genFilteredResults c (c.startedWorker <|> w) shared — mirrored by hand, tied by the correspondence run)",
+    "GenRules.lean also holds genDefaultRunDecision (TestNode.default_run_decision, in the state monad StateT Bool "
+    "(Except Err): the state is whether the instance attribute should_rerun was replaced by `lambda _: False` — that "
+    "assignment is a pinned statement standing for `set true`; self.should_rerun(worker) is the action rerunM = the "
+    "generated genShouldRerun unless disabled; self.is_finished(worker, 1) and self.scan_states() are the inputs "
+    "`finished` / `scanRun`; `a or <action>` is printed as statements so that the action runs only when Python runs "
+    "it); defaultRunDecision_matches_source proves the hand written defaultRunDecision equal to it for all inputs",
 ]
 
 # the property's eight statuses and the acceptable ones -- deliberately NOT taken from /repo or the model
@@ -230,6 +252,19 @@ def extract(ctx):
                                                 "maxTriesReplayDefault", "statusTimeout", "retryInfix")}
     global _EXTRACTED_VALUES
     _EXTRACTED_VALUES = v
+    _extract_gen(ctx)
+
+
+def _extract_gen(ctx):
+    """second tie: the control flow of should_rerun / shared_filtered_results translated to Lean (raises
+    pygen.Unsupported when a function left the translated subset; run.py records that as a proof problem)"""
+    import pygen
+    if pygen.extract_rules(ctx):
+        ctx.notes.append("I2N/Extracted/GenRules.lean changed: the source of TestNode.should_rerun / "
+                         "shared_filtered_results differs from the one the committed file was generated from "
+                         "(shouldRerun_matches_source / filteredResults_matches_source are re-checked)")
+    ctx.extra["regenerated"] = ("lean/I2N/Extracted/GenRules.lean (TestNode.should_rerun, shared_filtered_results, "
+                                "default_run_decision via harness/pygen.py)")
 
 
 _EXTRACTED_VALUES = None
